@@ -221,7 +221,20 @@ pub fn run_c05(ctx: &Ctx, rep: &mut Report) {
     let mut root = Rng::new(ctx.seed).fork(0xC05 + ctx.shard as u64);
     for li in 0..n {
         let mut rng = root.fork(li as u64);
-        let (pats, ci) = prefilter_patterns(&mut rng);
+        // every third list is structured-random (small alphabets with letters
+        // in both cases and the bytes next to the letter ranges, prefixes /
+        // suffixes / duplicates): what prefilter the builder then chooses, and
+        // in which order it learned its bytes, is up to the builder
+        let (pats, ci) = if li % 3 == 2 {
+            let (p, _) = if rng.chance(1, 2) { ci_patterns(&mut rng) } else { gen::patterns(&mut rng, &gen::Profile::default_sem()) };
+            let p: Vec<Vec<u8>> = p.into_iter().filter(|q| !q.is_empty()).collect();
+            if p.is_empty() {
+                continue;
+            }
+            (p, rng.chance(1, 2))
+        } else {
+            prefilter_patterns(&mut rng)
+        };
         for &kind in &Kind::ALL {
             let imp = *rng.pick(&Imp::ALL);
             let base = Cfg {
@@ -428,6 +441,19 @@ pub fn c10_check_one(
         }
         if span.1 == hay.len() {
             forms.push(("range(s..)", Input::new(hay).range(span.0..)));
+        }
+        {
+            use std::ops::Bound;
+            if span.0 >= 1 {
+                forms.push(("range((Excluded(s-1), Excluded(e)))", Input::new(hay).range((Bound::Excluded(span.0 - 1), Bound::Excluded(span.1)))));
+                if span.1 == hay.len() {
+                    forms.push(("range((Excluded(s-1), Unbounded))", Input::new(hay).range((Bound::Excluded(span.0 - 1), Bound::Unbounded))));
+                }
+            }
+            if span.1 > span.0 {
+                forms.push(("range((Included(s), Included(e-1)))", Input::new(hay).range((Bound::Included(span.0), Bound::Included(span.1 - 1)))));
+            }
+            forms.push(("range((Unbounded.., Excluded(e)))", Input::new(hay).span(span.0..span.1).range((Bound::Included(span.0), Bound::Excluded(span.1)))));
         }
         let mut via_set = Input::new(hay);
         via_set.set_start(span.0.min(hay.len()));
